@@ -1,4 +1,5 @@
 import TrionModel.Lemmas.AsmGlobRun
+import TrionModel.Lemmas.AsmQueue
 /-!
 # Projects with `.include`, `.global`, `.export` and `.import` (of a name the includer holds valued) against the reference
 
@@ -313,6 +314,74 @@ theorem XFlat.source {num : Nat → Bytes → Nat} {fs : Bytes → Option Bytes}
         exact .inr ⟨_, _, _, rfl⟩
       · exact ih2 ht s hs
 
+/-- `XFlat` in which every ordinary statement is GENUINE over its file's table (`ElGen`): its abstraction is no fallback,
+the fresh assembly of an instruction over the table completes and is accepted by the encoder, a `.du*` operand evaluates to
+a value in range, strings decode, files exist -/
+inductive XFlatS (num : Nat → Bytes → Nat) (fs : Bytes → Option Bytes) (enc : Encoder) (E : Layout.Env) :
+    Nat → Nat → Bytes → Table → Nat → Option Nat → List Element → List Layout.Stmt → Nat → Prop
+  | nil (pid id : Nat) (path : Bytes) (t : Table) (nxt : Nat) (c : Option Nat) : XFlatS num fs enc E pid id path t nxt c [] [] nxt
+  | stmt {pid id : Nat} {path : Bytes} {t : Table} {nxt : Nat} {c : Option Nat} {el : Element} {els : List Element}
+      {p : List Layout.Stmt} {nxt' : Nat} : isInclude el = false → isGlobal el = false → isExport el = false →
+      isImport el = false → ElGen fs enc path t c el →
+      XFlatS num fs enc E pid id path t nxt (Layout.Ref.next c (absStmt (num id) fs enc path t c el)) els p nxt' →
+      XFlatS num fs enc E pid id path t nxt c (el :: els) (absStmt (num id) fs enc path t c el :: p) nxt'
+  | pubs {pid id : Nat} {path : Bytes} {t : Table} {nxt : Nat} {c : Option Nat} {el : Element} {els : List Element}
+      {p : List Layout.Stmt} {nxt' : Nat} : (isGlobal el = true ∨ isExport el = true) →
+      XFlatS num fs enc E pid id path t nxt c els p nxt' → XFlatS num fs enc E pid id path t nxt c (el :: els) p nxt'
+  | imp {pid id : Nat} {path : Bytes} {t : Table} {nxt : Nat} {c : Option Nat} {el : Element} {els : List Element}
+      {p : List Layout.Stmt} {nxt' : Nat} {x : Bytes} {v : Int} : importName el = some x → t.val x = some v →
+      XFlatS num fs enc E pid id path t nxt c els p nxt' →
+      XFlatS num fs enc E pid id path t nxt c (el :: els) (.const (num id x) [num pid x] v :: p) nxt'
+  | inc {pid id : Nat} {path : Bytes} {t : Table} {nxt : Nat} {c : Option Nat} {el : Element} {els : List Element}
+      {p : List Layout.Stmt} {nxt' : Nat} {path' data' : Bytes} {els' : List Element} {perr' : Option ParseErr}
+      {t' : Table} {pc : List Layout.Stmt} {nxt1 : Nat} {A : List (Bytes × Int)} :
+      incTarget fs path el = some (path', data') → parseFile data' = .ok (els', perr') →
+      EnvRel (num nxt) t' E →
+      XFlatS num fs enc E id nxt path' t' (nxt + 1) c els' pc nxt1 →
+      A.map Prod.fst = els'.filterMap pubName → (∀ xv ∈ A, t'.val xv.1 = some xv.2) →
+      XFlatS num fs enc E pid id path t nxt1 (Layout.Ref.cursorAfter c pc) els p nxt' →
+      XFlatS num fs enc E pid id path t nxt c (el :: els) (pc ++ (aliases (num id) (num nxt) A ++ p)) nxt'
+
+theorem XFlatS.toXFlat {num : Nat → Bytes → Nat} {fs : Bytes → Option Bytes} {enc : Encoder} {E : Layout.Env} {pid id : Nat}
+    {path : Bytes} {t : Table} {nxt : Nat} {c : Option Nat} {els : List Element} {p : List Layout.Stmt} {nxt' : Nat}
+    (h : XFlatS num fs enc E pid id path t nxt c els p nxt') : XFlat num fs enc E pid id path t nxt c els p nxt' := by
+  induction h with
+  | nil => exact .nil ..
+  | stmt h1 h2 h3 h4 _ _ ih => exact .stmt h1 h2 h3 h4 ih
+  | pubs h1 _ ih => exact .pubs h1 ih
+  | imp h1 h2 _ ih => exact .imp h1 h2 ih
+  | inc h1 h2 h3 _ h5 h6 _ ih1 ih2 => exact .inc h1 h2 h3 ih1 h5 h6 ih2
+
+/-- every ordinary statement of a strong flattening, with the file instance it belongs to: genuine over that instance's
+table, which is `E` at the instance -/
+theorem XFlatS.source {num : Nat → Bytes → Nat} {fs : Bytes → Option Bytes} {enc : Encoder} {E : Layout.Env} {pid id : Nat}
+    {path : Bytes} {t : Table} {nxt : Nat} {c : Option Nat} {els : List Element} {p : List Layout.Stmt} {nxt' : Nat}
+    (h : XFlatS num fs enc E pid id path t nxt c els p nxt') (ht : EnvRel (num id) t E) :
+    ∀ s ∈ p, (∃ id' path' t' c' el, EnvRel (num id') t' E ∧ isInclude el = false ∧ ElGen fs enc path' t' c' el ∧
+      s = absStmt (num id') fs enc path' t' c' el) ∨ (∃ n d v, s = .const n [d] v) := by
+  induction h with
+  | nil => intro s hs; cases hs
+  | stmt hi _ _ _ hg _ ih =>
+    intro s hs
+    rcases List.mem_cons.mp hs with rfl | hs
+    · exact .inl ⟨_, _, _, _, _, ht, hi, hg, rfl⟩
+    · exact ih ht s hs
+  | pubs _ _ ih => exact ih ht
+  | imp _ _ _ ih =>
+    intro s hs
+    rcases List.mem_cons.mp hs with rfl | hs
+    · exact .inr ⟨_, _, _, rfl⟩
+    · exact ih ht s hs
+  | inc _ _ er _ _ _ _ ih1 ih2 =>
+    intro s hs
+    rcases List.mem_append.mp hs with hs | hs
+    · exact ih1 er s hs
+    · rcases List.mem_append.mp hs with hs | hs
+      · simp only [aliases, List.mem_map] at hs
+        obtain ⟨xv, _, rfl⟩ := hs
+        exact .inr ⟨_, _, _, rfl⟩
+      · exact ih2 ht s hs
+
 /-! ## the recursive call -/
 
 def XIncSim (num : Nat → Bytes → Nat) (enc : Encoder) (fs : Bytes → Option Bytes) (inc : Inc)
@@ -332,7 +401,7 @@ def XIncSim (num : Nat → Bytes → Nat) (enc : Encoder) (fs : Bytes → Option
       (∀ s ∈ pc, s.wf = true) ∧
       (∀ j n, j ≠ pid → (j < id ∨ id' ≤ j) → la.env.get (num j n) = l.env.get (num j n)) ∧
       (∀ E : Layout.Env, (∀ j n, id ≤ j → j < id' → E.get (num j n) = la.env.get (num j n)) →
-        EnvRel (num id) t E ∧ XFlat num fs enc E pid id path t (id + 1) (cursor st) els pc id') ∧
+        EnvRel (num id) t E ∧ XFlatS num fs enc E pid id path t (id + 1) (cursor st) els pc id') ∧
       A.map Prod.fst = els.filterMap pubName ∧ (∀ xv ∈ A, t.val xv.1 = some xv.2)
 
 section
@@ -357,8 +426,10 @@ theorem doAssemble_sim (hinj : NumInj num) (henc : EncLen enc) (fs : Bytes → O
         A'.map Prod.fst = els.filterMap pubName ∧ EnvRel (num pid) Gt₀ lf.env ∧
         cursor stf = Layout.Ref.cursorAfter (cursor st) p ∧ (∀ s ∈ p, s.wf = true) ∧
         (∀ j n, j ≠ id → (j < nxt ∨ nxt' ≤ j) → lf.env.get (num j n) = l.env.get (num j n)) ∧
+        QSub st stf ∧
         (∀ E : Layout.Env, (∀ j n, nxt ≤ j → j < nxt' → E.get (num j n) = lf.env.get (num j n)) →
-          XFlat num fs enc E pid id path t₂ nxt (cursor st) els p nxt') := by
+          (∀ qf, stf.localTasks = some qf → ∀ task ∈ qf, GenTask enc t₂ task) →
+          XFlatS num fs enc E pid id path t₂ nxt (cursor st) els p nxt') := by
   have henv' : env.paths.isEmpty = false := by rw [henv]; rfl
   intro els
   induction els with
@@ -369,7 +440,7 @@ theorem doAssemble_sim (hinj : NumInj num) (henc : EncLen enc) (fs : Bytes → O
       simp only [doAssemble] at h; cases h
       exact ⟨[], l, nxt, [], Gt, Nat.le_refl _, .nil l, sim, by rw [List.append_nil]; exact hte,
         by rw [List.append_nil]; exact hpo, fun _ hx => (by cases hx), rfl, hP, rfl, fun _ hs => (by cases hs),
-        fun _ _ _ _ => rfl, fun E _ => .nil ..⟩
+        fun _ _ _ _ => rfl, QSub.refl _, fun E _ _ => .nil ..⟩
     | some e => simp only [doAssemble] at h; cases h
   | cons el els ih =>
     intro st stf l nxt seen A Gt hok sim hte hpo hAs hP hseen hid hfresh h herr hfin
@@ -441,14 +512,14 @@ theorem doAssemble_sim (hinj : NumInj num) (henc : EncLen enc) (fs : Bytes → O
           rw [hframe j n (by omega) (.inr hj)]; exact hfresh j n (by omega)
         have hP1 : EnvRel (num pid) Gt₀ la.env := fun m => by
           rw [hframe pid m (by omega) (.inl (by omega))]; exact hP m
-        obtain ⟨p, lf, nxt', A', Gt', hle, hm2, simf, hte', hpo', hAv', hAn', hPf, hcurf, hwf2, hframe2, hflat2⟩ :=
+        obtain ⟨p, lf, nxt', A', Gt', hle, hm2, simf, hte', hpo', hAv', hAn', hPf, hcurf, hwf2, hframe2, hq2, hflat2⟩ :=
           ih st1 stf la id' _ A Gt hok' sim1 hte hpo hAs' hP1 (hseen1 (fun x hx => by
               simp only [xincNames, htgt, hparse] at hx
               rw [e1] at hC1; cases hC1
               obtain ⟨v, hv⟩ := pub_valued Ac t x (.inl (by rw [hAn]; exact hx))
               exact ⟨v, by rw [hte1 x]; exact hv⟩) (hnoie hii hie)) (by omega) hfresh1 h herr hfin
         refine ⟨pc ++ (aliases (num id) (num nxt) Ac ++ p), lf, nxt', A', Gt', by omega, .file hm hrt (MRun.append hal hm2), simf,
-          hte', hpo', hAv', ?_, hPf, ?_, ?_, ?_, ?_⟩
+          hte', hpo', hAv', ?_, hPf, ?_, ?_, ?_, (QSub.of_eq e2).trans hq2, ?_⟩
         · simp only [List.filterMap_cons, pubName, globalName_none hig, exportName_none hie]; exact hAn'
         · rw [Layout.cursorAfter_append, Layout.cursorAfter_append, cursorAfter_aliases, ← hcur]; exact hcurf
         · intro s hs'
@@ -460,14 +531,14 @@ theorem doAssemble_sim (hinj : NumInj num) (henc : EncLen enc) (fs : Bytes → O
         · intro j n hj hjr
           rw [hframe2 j n hj (by omega)]
           exact hframe j n hj (by omega)
-        · intro E hE
+        · intro E hE hGen
           have hEc : ∀ j n, nxt ≤ j → j < id' → E.get (num j n) = la.env.get (num j n) := fun j n h1 h2 => by
             rw [hE j n h1 (by omega)]
             exact hframe2 j n (by omega) (.inl h2)
           obtain ⟨er, fl⟩ := hflat E hEc
           refine .inc htgt hparse er fl hAn hAv ?_
           rw [← hcur]
-          exact hflat2 E (fun j n h1 h2 => hE j n (by omega) h2)
+          exact hflat2 E (fun j n h1 h2 => hE j n (by omega) h2) hGen
       · have hi' : isInclude el = false := by simpa using hi
         by_cases hg : isGlobal el = true
         · -- `.global x` with `x` valued
@@ -495,9 +566,10 @@ theorem doAssemble_sim (hinj : NumInj num) (henc : EncLen enc) (fs : Bytes → O
             · exact hAs' xv hxv
             · simp only [List.mem_singleton] at hxv; subst hxv
               exact List.mem_append_right _ hx0s
-          obtain ⟨p, lf, nxt', A', Gt', hle, hm2, simf, hte', hpo', hAv', hAn', hPf, hcurf, hwf2, hframe2, hflat2⟩ :=
+          obtain ⟨p, lf, nxt', A', Gt', hle, hm2, simf, hte', hpo', hAv', hAn', hPf, hcurf, hwf2, hframe2, hq2, hflat2⟩ :=
             ih st1 stf l nxt _ (A ++ [(x, v)]) _ hok' sim1 hte1 hpo1 hAs1 hP (hseen1 (hnoinc hi') (hnoie hgi hge)) hid hfresh h herr hfin
-          refine ⟨p, lf, nxt', (x, v) :: A', Gt', hle, hm2, simf, ?_, ?_, ?_, ?_, hPf, by rw [← hcur1]; exact hcurf, hwf2, hframe2, ?_⟩
+          refine ⟨p, lf, nxt', (x, v) :: A', Gt', hle, hm2, simf, ?_, ?_, ?_, ?_, hPf, by rw [← hcur1]; exact hcurf, hwf2, hframe2,
+            (QSub.of_eq (by rw [hst1])).trans hq2, ?_⟩
           · rw [show A ++ (x, v) :: A' = (A ++ [(x, v)]) ++ A' by simp]; exact hte'
           · rw [show A ++ (x, v) :: A' = (A ++ [(x, v)]) ++ A' by simp]; exact hpo'
           · intro xv hxv
@@ -505,10 +577,10 @@ theorem doAssemble_sim (hinj : NumInj num) (henc : EncLen enc) (fs : Bytes → O
             · simp only [Table.val, hsub x v hv]
             · exact hAv' xv hxv
           · simp only [List.filterMap_cons, pubName, hx0, List.map_cons, hAn']
-          · intro E hE
+          · intro E hE hGen
             refine .pubs (.inl hg) ?_
             rw [← hcur1]
-            exact hflat2 E hE
+            exact hflat2 E hE hGen
         · have hg' : isGlobal el = false := by simpa using hg
           by_cases hx : isExport el = true
           · -- `.export x`
@@ -530,12 +602,13 @@ theorem doAssemble_sim (hinj : NumInj num) (henc : EncLen enc) (fs : Bytes → O
               · simp only [List.mem_singleton] at hxv; subst hxv
                 refine List.mem_append_left _ ?_
                 simp [xNames, hgn]
-            obtain ⟨p, lf, nxt', A', Gt', hle, hm2, simf, hte', hpo', hAv', hAn', hPf, hcurf, hwf2, hframe2, hflat2⟩ :=
+            obtain ⟨p, lf, nxt', A', Gt', hle, hm2, simf, hte', hpo', hAv', hAn', hPf, hcurf, hwf2, hframe2, hq2, hflat2⟩ :=
               ih st1 stf l nxt _ (A ++ [(x, v)]) _ hok' sim1 hte1 hpo1 hAs1 hP (hseen1 (hnoinc hi') (fun y hy => by
                   simp only [importName_none hxi, hgn, Option.toList_none, Option.toList_some, List.nil_append,
                     List.mem_singleton] at hy
                   subst hy; rw [hC1t]; exact ⟨v, hv⟩)) hid hfresh h herr hfin
-            refine ⟨p, lf, nxt', (x, v) :: A', Gt', hle, hm2, simf, ?_, ?_, ?_, ?_, hPf, by rw [← hcur1]; exact hcurf, hwf2, hframe2, ?_⟩
+            refine ⟨p, lf, nxt', (x, v) :: A', Gt', hle, hm2, simf, ?_, ?_, ?_, ?_, hPf, by rw [← hcur1]; exact hcurf, hwf2, hframe2,
+              (QSub.of_eq (by rw [hst1])).trans hq2, ?_⟩
             · rw [show A ++ (x, v) :: A' = (A ++ [(x, v)]) ++ A' by simp]; exact hte'
             · rw [show A ++ (x, v) :: A' = (A ++ [(x, v)]) ++ A' by simp]; exact hpo'
             · intro xv hxv
@@ -543,10 +616,10 @@ theorem doAssemble_sim (hinj : NumInj num) (henc : EncLen enc) (fs : Bytes → O
               · simp only [Table.val, hsub x v hv]
               · exact hAv' xv hxv
             · simp only [List.filterMap_cons, pubName, globalName_none hg', hgn, List.map_cons, hAn']
-            · intro E hE
+            · intro E hE hGen
               refine .pubs (.inr hx) ?_
               rw [← hcur1]
-              exact hflat2 E hE
+              exact hflat2 E hE hGen
           · have hx' : isExport el = false := by simpa using hx
             by_cases hm : isImport el = true
             · -- `.import x` of a name the includer holds valued
@@ -585,14 +658,15 @@ theorem doAssemble_sim (hinj : NumInj num) (henc : EncLen enc) (fs : Bytes → O
                   by rw [hst1]; exact sim.tasks, ⟨by rw [hst1]; exact sim.gl.1, by rw [hst1]; exact sim.gl.2⟩⟩
               have hcur1 : cursor st1 = cursor st := by rw [hst1]; rfl
               have hC1t : C1 = t.set x (some v) := by rw [hst1] at hC1; cases hC1; rfl
-              obtain ⟨p, lf, nxt', A', Gt', hle, hm2, simf, hte', hpo', hAv', hAn', hPf, hcurf, hwf2, hframe2, hflat2⟩ :=
+              obtain ⟨p, lf, nxt', A', Gt', hle, hm2, simf, hte', hpo', hAv', hAn', hPf, hcurf, hwf2, hframe2, hq2, hflat2⟩ :=
                 ih st1 stf l1 nxt _ A Gt hok' sim1 hte hpo hAs' (fun m => by rw [henv1 pid m (by omega)]; exact hP m)
                   (hseen1 (hnoinc hi') (fun y hy => by
                     simp only [hx0, exportName_none hx', Option.toList_none, Option.toList_some, List.append_nil,
                       List.mem_singleton] at hy
                     subst hy; rw [hC1t]; exact ⟨v, by rw [find_set]; simp⟩)) hid
                   (fun j n hj => by rw [henv1 j n (by omega)]; exact hfresh j n hj) h herr hfin
-              refine ⟨_ :: p, lf, nxt', A', Gt', hle, .step hstep hm2, simf, hte', hpo', hAv', ?_, hPf, ?_, ?_, ?_, ?_⟩
+              refine ⟨_ :: p, lf, nxt', A', Gt', hle, .step hstep hm2, simf, hte', hpo', hAv', ?_, hPf, ?_, ?_, ?_,
+                (QSub.of_eq (by rw [hst1])).trans hq2, ?_⟩
               · simp only [List.filterMap_cons, pubName, globalName_none hg', exportName_none hx']; exact hAn'
               · simp only [Layout.Ref.cursorAfter, Layout.Ref.next]; rw [← hcur1]; exact hcurf
               · intro s hs'
@@ -601,13 +675,13 @@ theorem doAssemble_sim (hinj : NumInj num) (henc : EncLen enc) (fs : Bytes → O
                 · exact hwf2 s hs'
               · intro j n hj hjr
                 rw [hframe2 j n hj hjr, henv1 j n hj]
-              · intro E hE
+              · intro E hE hGen
                 have hv2 : t₂.val x = some v := by
                   have := hT (t.set x (some v)) (by rw [hst1]) x v (by rw [find_set]; simp)
                   simp only [Table.val, this]
                 refine .imp hx0 hv2 ?_
                 rw [← hcur1]
-                exact hflat2 E hE
+                exact hflat2 E hE hGen
             · -- an ordinary statement
               have hm' : isImport el = false := by simpa using hm
               have hokel := okEl_of4 hi' hg' hx' hm'
@@ -617,11 +691,13 @@ theorem doAssemble_sim (hinj : NumInj num) (henc : EncLen enc) (fs : Bytes → O
                 Layout.step_env_raw l l1 _ s1 _ (fun hd => by
                   obtain ⟨m, hm⟩ := defines_absStmt (num id) fs path t₂ (cursor st) el _ hd
                   exact hj (hinj _ _ _ _ hm).1)
-              obtain ⟨p, lf, nxt', A', Gt', hle, hm2, simf, hte', hpo', hAv', hAn', hPf, hcurf, hwf2, hframe2, hflat2⟩ :=
+              have hfate := Multi.statement_fate (hinj.inj id) henc sim fs inc env path henv el hokel hs herr1 hT
+              have hq1 : QSub st st1 := statement_qsub hokel _ _ hs
+              obtain ⟨p, lf, nxt', A', Gt', hle, hm2, simf, hte', hpo', hAv', hAn', hPf, hcurf, hwf2, hframe2, hq2, hflat2⟩ :=
                 ih st1 stf l1 nxt _ A Gt hok' sim1 hte hpo hAs' (fun m => by rw [henv1 pid m (by omega)]; exact hP m)
                   (hseen1 (hnoinc hi') (hnoie hm' hx')) hid
                   (fun j n hj => by rw [henv1 j n (by omega)]; exact hfresh j n hj) h herr hfin
-              refine ⟨_ :: p, lf, nxt', A', Gt', hle, .step s1 hm2, simf, hte', hpo', hAv', ?_, hPf, ?_, ?_, ?_, ?_⟩
+              refine ⟨_ :: p, lf, nxt', A', Gt', hle, .step s1 hm2, simf, hte', hpo', hAv', ?_, hPf, ?_, ?_, ?_, hq1.trans hq2, ?_⟩
               · simp only [List.filterMap_cons, pubName, globalName_none hg', exportName_none hx']; exact hAn'
               · simp only [Layout.Ref.cursorAfter]; rw [← s3]; exact hcurf
               · intro s hs'
@@ -630,10 +706,25 @@ theorem doAssemble_sim (hinj : NumInj num) (henc : EncLen enc) (fs : Bytes → O
                 · exact hwf2 s hs'
               · intro j n hj hjr
                 rw [hframe2 j n hj hjr, henv1 j n hj]
-              · intro E hE
-                refine .stmt hi' hg' hx' hm' ?_
+              · intro E hE hGen
+                -- the statement is genuine: now, or because the task it queued was run when the file ended
+                have hmem : ∀ q task, st1.localTasks = some (q ++ [task]) → GenTask enc t₂ task := by
+                  intro q task hq
+                  obtain ⟨new, hnew⟩ := hq2 _ hq
+                  exact hGen _ hnew task (by simp)
+                have hgen : ElGen fs enc path t₂ (cursor st) el := by
+                  refine ElGenW.mono (fun x tpl args hI => ?_) (fun du a hD => ?_) hfate
+                  · rcases hI with hI | ⟨q, i, t₁, c, hq, haddr, hs', hn', hf⟩
+                    · exact hI
+                    · have := hmem q _ hq tpl args t₁ c hs' hn' (by rw [haddr]; exact hf)
+                      rw [haddr] at this; exact this
+                  · rcases hD with hD | ⟨q, d, t₁, n, hq, hdu, hs', hn', hf⟩
+                    · exact hD
+                    · have := hmem q _ hq a t₁ n hs' hn' hf
+                      rw [hdu] at this; exact this
+                refine .stmt hi' hg' hx' hm' hgen ?_
                 rw [← s3]
-                exact hflat2 E hE
+                exact hflat2 E hE hGen
     · cases h
     · cases h
 
@@ -660,7 +751,8 @@ theorem fileBody_sim (hinj : NumInj num) (henc : EncLen enc) (fs : Bytes → Opt
         R st4.seg la ∧ EnvRel (num pid) st4.globals la.env ∧
         (∀ j n, j ≠ pid → (j < id ∨ id' ≤ j) → la.env.get (num j n) = l2.env.get (num j n)) ∧
         (∀ E : Layout.Env, (∀ j n, id ≤ j → j < id' → E.get (num j n) = la.env.get (num j n)) →
-          EnvRel (num id) t E ∧ XFlat num fs enc E pid id path t (id + 1) (cursor st2) els p id')) := by
+          EnvRel (num id) t E ∧ XFlatS num fs enc E pid id path t (id + 1) (cursor st2) els p id')) ∧
+      Table.NoDef t := by
   have henv' : env1.paths.isEmpty = false := by rw [henv]; rfl
   obtain ⟨els, perr, hparse⟩ := parseFile_cases data
   have hfb' := h
@@ -701,7 +793,7 @@ theorem fileBody_sim (hinj : NumInj num) (henc : EncLen enc) (fs : Bytes → Opt
           ⟨good, r, ⟨[], hloc, fun n hh => by simp [Table.find] at hh, fun n v hh => by simp [Table.find] at hh,
               fun n => by rw [hfresh id n (Nat.le_refl _)]; rfl⟩,
             ⟨[], hlt, by rw [hlk]; trivial⟩, ⟨rfl, rfl⟩⟩
-        obtain ⟨p, lf, id', A, Gt', hle, hm, f2, hte, hpo, hAv, hAn, hPf, hcur, hwf, hframe, hflat⟩ :=
+        obtain ⟨p, lf, id', A, Gt', hle, hm, f2, hte, hpo, hAv, hAn, hPf, hcur, hwf, hframe, _, hflat⟩ :=
           doAssemble_sim (t₂ := t₂) hinj henc fs inc proj hincs hinc hincg hincr env1 path rest henv perr pid id hpid st2.globals
             hgn avail hav els st2 st3 l2 (id + 1) [] [] st2.globals (hproj els perr hparse) sim2 (fun _ => rfl) trivial
             (fun x hx => by cases hx) hgr (fun x hx => by cases hx) (Nat.lt_succ_self _)
@@ -716,7 +808,7 @@ theorem fileBody_sim (hinj : NumInj num) (henc : EncLen enc) (fs : Bytes → Opt
           ⟨gc, f2.r, ht₂, e2, e4, rfl, f2.gl⟩
         have hrounds : rounds = 6 + 2 := rfl
         rw [hrounds] at hfb'
-        obtain ⟨l4, g1, g2, g3⟩ := Multi.localLoop_sim henc env1 henv' 6 tasks lf.tasks _ st4 _ res tsim q2
+        obtain ⟨l4, g1, g2, g3, g5⟩ := Multi.localLoop_sim' henc env1 henv' 6 tasks lf.tasks _ st4 _ res tsim q2
           (fun t m => f2.good.lt tasks htk t m) hfb' herr
         have hres : res = .ok := by
           have := (localLoop_grew _ _ _ _ _ _ hfb').2
@@ -730,7 +822,7 @@ theorem fileBody_sim (hinj : NumInj num) (henc : EncLen enc) (fs : Bytes → Opt
         have he4 : l4.env = lf.env := Layout.runTasks_env _ (withTasks [] lf) l4 g1
         have hte4 : TEq st4.globals (pub st2.globals A) := by rw [g2.gl.2]; exact hte
         refine ⟨els, perr, t₂, p, lf, l4, A, id', hparse, by omega, hres, hm, g1, g2.good, hte4, hte4.nodef (nodef_pub hgn A),
-          g2.gl.1, g2.lq, g2.loc, by rw [← hcur]; exact g3, hwf, hAn, hAv, fun T => ?_⟩
+          g2.gl.1, g2.lq, g2.loc, by rw [← hcur]; exact g3, hwf, hAn, hAv, fun T => ?_, g2.nodef⟩
         have hgr4 : EnvRel (num pid) st2.globals (withTasks T l4).env := by
           intro n
           show l4.env.get (num pid n) = _
@@ -748,7 +840,8 @@ theorem fileBody_sim (hinj : NumInj num) (henc : EncLen enc) (fs : Bytes → Opt
           exact hframe j n (by omega) (by omega)
         · have hE' : ∀ j n, id ≤ j → j < id' → E.get (num j n) = l4.env.get (num j n) := fun j n h1 h2 => by
             rw [hE j n h1 h2, hother j n (by omega)]
-          refine ⟨fun n => ?_, hflat E (fun j n h1 h2 => by rw [hE' j n (by omega) h2, he4])⟩
+          refine ⟨fun n => ?_, hflat E (fun j n h1 h2 => by rw [hE' j n (by omega) h2, he4])
+            (fun qf hqf task htask => g5 task (by rw [htk] at hqf; cases hqf; exact htask))⟩
           rw [hE' id n (Nat.le_refl _) (by omega)]
           exact g2.env n
 
@@ -781,7 +874,7 @@ theorem assembleFile_sim (hinj : NumInj num) (henc : EncLen enc) (fs : Bytes →
       obtain ⟨hst, hres⟩ := h
       subst hres
       have herr4 : st4.errors = [] := by rw [← hst] at herr; exact herr
-      obtain ⟨els, perr, tt, p, l3, l4, A, id', hparse, hlt, _, hm, hrt, g4, e1, hnd, e2, e3, e4, hcur, hwf, hAn, hAv, hal⟩ :=
+      obtain ⟨els, perr, tt, p, l3, l4, A, id', hparse, hlt, _, hm, hrt, g4, e1, hnd, e2, e3, e4, hcur, hwf, hAn, hAv, hal, _⟩ :=
         fileBody_sim hinj henc fs (assembleFile fs enc fuel) (XferProject fs fuel) ih hinc (assembleFile_grew fs enc fuel)
           (assembleFile_rel fs enc fuel) ⟨path :: env.paths, path⟩ path env.paths rfl data pid id hpid _ st4 _ (withTasks [] l)
           avail hproj g2 r rfl rfl rfl hfresh hndP hrP havP hf herr4
